@@ -340,7 +340,7 @@ func (e *L2Env) L2Obs(tr L2Track, r ExecResult) Ov {
 	}
 	for _, d := range tr.Denoms {
 		sups = append(sups, ozB(e.BK.GetSupply(ctx, d).Amount.BigInt()))
-		base, err := e.K.GetBaseDenom(ctx, d)
+		base, err := e.K.DenomPairs.Get(ctx, d) // the stored map itself, not the query that may fall back
 		if err != nil {
 			prs = append(prs, ol())
 		} else {
